@@ -29,7 +29,7 @@ class Answers:
     """pure callback answers; mirrors vh::Probe::ans* bit for bit"""
     def __init__(self, shape, seed, knobs):
         self.n = shape['nodes']; self.seed = seed; self.step = 0; self.draws = 0
-        self.zero_util = knobs.get('zeroUtil', 1); self.palette = knobs.get('palette', 0)
+        self.zero_util = knobs.get('zeroUtil', 1); self.palette = knobs.get('palette', 0); self.fine = knobs.get('fineUtil', 0)
         self._cache = {}
     def set_step(self, step):
         self.step = step; self.draws = 0; self._cache = {}
@@ -39,11 +39,12 @@ class Answers:
         w = len(self.n[node]['children'])
         return self.h(node, 1) % (w if w > 0 else 1)
     def rank(self, node):
+        if self.fine: return 1 if self.h(node, 2) % 5 == 0 else 0
         return self.h(node, 2) % 3
     def util8(self, node):
         key = node
         if key in self._cache: return self._cache[key]
-        u = self.h(node, 3) % 9
+        u = self.h(node, 3) % (3 if self.fine else 9)
         if u == 0:
             ok = False
             if self.zero_util:
@@ -56,11 +57,16 @@ class Answers:
         self._cache[key] = u
         return u
     def utility(self, node):
-        return 0.125 * self.util8(node)
+        u8 = self.util8(node)
+        if self.fine and u8 != 0: return f32(((self.h(node, 5) & 0xffffff) + 1) / 16777216.0)
+        return 0.125 * u8
     def rng(self):
         self.draws += 1
         x = self.h(1000 + self.draws, 99)
-        if self.palette == 1 or (x & 3) == 0: return HOSTILE[(x >> 8) % 16]
+        if self.palette == 2:
+            if (x >> 8) & 1: return HOSTILE[1]
+            if (x >> 9) & 1: return HOSTILE[2]
+        elif self.palette == 1 or (x & 3) == 0: return HOSTILE[(x >> 8) % 16]
         return f32(((x >> 16) & 0xffffff) / 16777216.0)
 
 def tree_sum(vals):
@@ -468,6 +474,9 @@ class Model:
                     self._restore(backup); self.notes.append('veto'); self.targets = dict(tb)
             else:
                 if now[2] != backup[2]: self.notes.append('remain-only-round')
+                # a round that changes nothing pending leaves nothing behind (its 're-run in place' marks would alter how the
+                # approved rounds are applied without any guard having seen the request)
+                if 'noop-round-keeps-marks' not in self.dev: self._restore(backup)
                 self.queue = []; self.targets = dict(tb)
             s += 1
         if self.queue: self.notes.append('leftover')
